@@ -37,6 +37,10 @@ pub struct PluginOpts {
     pub path_swapped: bool,
     /// additional OOV provider configurations placed before the others
     pub extra_oov_front: Vec<Value>,
+    /// input-text plugins listed in reverse order (yomigana, prolonged marks, default)
+    pub input_rev: bool,
+    /// no SimpleOovPlugin at the end of the provider list (analysis may then fail for lack of candidates)
+    pub no_fallback: bool,
 }
 
 impl PluginOpts {
@@ -59,6 +63,8 @@ impl PluginOpts {
             yomigana_cfg: None,
             path_swapped: false,
             extra_oov_front: vec![],
+            input_rev: false,
+            no_fallback: false,
         }
     }
 
@@ -111,6 +117,11 @@ impl PluginOpts {
         if rng.chance(1, 2) {
             self.yomigana = true;
         }
+        // the plugins may be listed in any order (a later one then edits what an earlier one resized)
+        if rng.chance(1, 2) {
+            self.input_rev = true;
+            self.default_input = true;
+        }
     }
 
     pub fn to_cfg(&self, oov_pos: &Pos, kata_pos: &Pos) -> Value {
@@ -131,6 +142,9 @@ impl PluginOpts {
             input.push(json!({"class": format!("{}IgnoreYomiganaPlugin", CLS),
                 "leftBrackets": l, "rightBrackets": r, "maxYomiganaLength": max}));
         }
+        if self.input_rev {
+            input.reverse();
+        }
         let mut oov = self.extra_oov_front.clone();
         if self.mecab {
             oov.push(json!({"class": format!("{}MeCabOovPlugin", CLS), "charDef": "char.def", "unkDef": "unk.def"}));
@@ -144,7 +158,9 @@ impl PluginOpts {
             }
             oov.push(v);
         }
-        oov.push(env::simple_oov(oov_pos, self.simple.0, self.simple.1, self.simple.2));
+        if !self.no_fallback || oov.is_empty() {
+            oov.push(env::simple_oov(oov_pos, self.simple.0, self.simple.1, self.simple.2));
+        }
         let mut path = vec![];
         if let Some(norm) = self.join_numeric {
             path.push(json!({"class": format!("{}JoinNumericPlugin", CLS), "enableNormalize": norm}));
